@@ -412,6 +412,29 @@ def run(ctx):
             except Exception as exc:
                 if type(exc).__name__ not in ('UnableToParse', 'CalcError', 'InvalidInput') and not isinstance(exc, __import__('mitxgraders').exceptions.StudentFacingError):
                     ctx.violation('unexpected error class for a non-ASCII digit/letter', {'s': s2, 'family': 'lookalike'}, impl=type(exc).__name__)
+    # (D'') overflow with allow_inf=True: whatever is returned for a value too large for a float has the right SIGN (or an overflow error is raised)
+    from mitxgraders.helpers.calc import evaluator as _ev
+    from mitxgraders import NumericalGrader as _NG
+    for expr, sign in [('(0-10)^401', -1), ('(0-2)^1025', -1), ('10^400', 1), ('(0-10)^400', 1), ('0-10^400', -1), ('(0-3)^999', -1), ('2^2000*(0-1)', -1), ('1e308*10', 1), ('(0-1e308)*10', -1)]:
+        for ainf in (True, False):
+            try:
+                val = with_alarm(lambda: _ev(expr, allow_inf=ainf)[0], 10)
+                out = ('val', val)
+            except Exception as exc:
+                out = ('err', type(exc).__name__)
+            case = {'s': expr, 'kind': 'overflow', 'allow_inf': ainf}
+            ctx.case(dict(case, outcome=repr(out)), nontrivial_key=('ovf', expr, ainf), kind='overflow')
+            if out[0] == 'val':
+                v_ = complex(out[1])
+                if not ainf or v_.imag != 0 or v_.real != sign * float('inf'):
+                    ctx.violation('a value too large for a float must be an overflow error, or (allow_inf) the infinity of the right sign %+d' % sign, case, impl=repr(out[1]))
+    for stu in ['(0-10)^401', '(0-2)^1025']:
+        try:
+            r = with_alarm(lambda: _NG(answers='infty', allow_inf=True)(None, stu), 10)
+            if r['ok'] is True:
+                ctx.violation('a huge NEGATIVE power is graded equal to +infinity', {'s': stu, 'kind': 'overflow-grader'}, impl=repr(r))
+        except Exception:
+            pass
     # (E) number literal formats and suffixes through the evaluator
     lits = []
     for m in ['0', '7', '12', '3.', '.5', '2.50', '0.125', '00012.5']:
